@@ -746,6 +746,15 @@ def codec_decode(ctx, b, encoding):
         raise Unsupported('symbolic encoding name')
     enc, dec, valid = _codec_funcs(encoding)
     bt = lift(b).t
+    # bytes that are (after simplification) a literal are decoded by the real codec
+    from .engine import _seq_items
+    lit = _seq_items(bt)
+    if lit is not None and all(0 <= x <= 255 for x in lit):
+        try:
+            return bytes(lit).decode(encoding)
+        except Exception as e:
+            from .interp import PyExc
+            raise PyExc(e)
     if not ctx.branch(valid(bt)):
         from .interp import py_raise
         py_raise(UnicodeDecodeError(encoding, b'x', 0, 1, 'invalid'))
@@ -1065,7 +1074,72 @@ def _bio_method(ctx, bio, name):
             raise Unsupported('seek whence')
         return bio.pos
 
+    def _rope_read(n):
+        """read(n) resolved structurally: the content is a concatenation of segments, the position is known to be the start of segment
+        `idx`, and n is (provably, under the path condition) the total length of the next few segments.  Returns the segments'
+        concatenation and leaves the position a plain sum of segment lengths; None when the read does not fall on segment boundaries."""
+        if not is_sym(bio.content):
+            return None
+        ct = bio._c().t
+        st = getattr(bio, '_rope', None)
+        if st is None or not st[0].eq(ct) or st[2] is not bio.pos:
+            p0 = sym.concrete_int(bio.pos)
+            if p0 != 0:
+                return None
+            st = (ct, 0, bio.pos, sym._segments(ct))
+        segs, i = st[3], st[1]
+        picked = []
+        nc = sym.concrete_int(n)
+        if nc is not None:
+            if nc < 0:
+                return None
+            left = nc
+            while left > 0:
+                if i >= len(segs):
+                    return None
+                seg, ln = segs[i]
+                lc = ln.as_long() if z3.is_int_value(ln) else None
+                if lc is None:
+                    # a symbolic segment: it must be (provably) exactly what is left to read
+                    if not sym.proves(ctx, ln == left):
+                        return None
+                    lc = left
+                if lc > left:
+                    return None
+                picked.append(seg)
+                left -= lc
+                i += 1
+            adv = nc
+        else:
+            if i >= len(segs):
+                return None
+            nt = as_int_term(n)
+            seg, ln = segs[i]
+            if z3.is_int_value(ln):
+                # a run of unit segments whose total is n is not resolved here
+                return None
+            if not (sym._is_zero(nt - ln) or sym.proves(ctx, nt == ln)):
+                return None
+            picked.append(seg)
+            i += 1
+            adv = SInt(ln)
+        newpos = bio.pos + adv
+        if is_sym(newpos):
+            newpos = SInt(z3.simplify(newpos.t))
+            c2 = sym.concrete_int(newpos)
+            if c2 is not None:
+                newpos = c2
+        bio.pos = newpos
+        bio._rope = (ct, i, newpos, segs)
+        if not picked:
+            return b''
+        return SBytes(picked[0] if len(picked) == 1 else z3.Concat(*picked))
+
     def read(n=-1):
+        if n is not None:
+            rr = _rope_read(n)
+            if rr is not None:
+                return rr
         c = bio._c() if (is_sym(bio.content) or is_sym(bio.pos) or is_sym(n)) else bio.content
         if n is None or (sym.concrete_int(n) is not None and sym.concrete_int(n) < 0):
             r = c[bio.pos:]
@@ -1828,3 +1902,37 @@ def _m_hexlify(ctx, data, *a):
     if deep_concrete(data) and deep_concrete(a):
         return _binascii.hexlify(data, *a)
     return ctx.fresh_bytes('hexlified', register=False)
+
+
+import socket as _socket
+
+_NTOP = {}
+
+
+def inet_ntop_model(ctx, family, addr):
+    """E-INET: inet_ntop(family, b) is the textual form of the address bytes - an opaque function of (family, bytes), injective per family;
+    it raises ValueError unless b has the family's length (4 / 16)."""
+    from .interp import deep_concrete, PyExc, py_raise
+    if deep_concrete(family) and deep_concrete(addr):
+        try:
+            return _socket.inet_ntop(family, bytes(addr))
+        except Exception as e:
+            raise PyExc(e)
+    fam = sym.concrete_int(family) if not isinstance(family, int) else int(family)
+    if fam not in (_socket.AF_INET, _socket.AF_INET6):
+        raise Unsupported('inet_ntop with a symbolic address family')
+    size = 4 if fam == _socket.AF_INET else 16
+    b = lift(addr)
+    if not ctx.branch(z3.Length(b.t) == size):
+        py_raise(ValueError('invalid length of packed IP address string'))
+    if fam not in _NTOP:
+        _NTOP[fam] = (z3.Function('inet_ntop_%d' % size, sym.ByteSeq, z3.StringSort()), z3.Function('inet_pton_%d' % size, z3.StringSort(), sym.ByteSeq))
+    ntop, pton = _NTOP[fam]
+    s = ntop(b.t)
+    ctx.assume(pton(s) == b.t, silent=True)
+    return SStr(s)
+
+
+@register(_socket.inet_ntop)
+def _m_inet_ntop(ctx, family, addr):
+    return inet_ntop_model(ctx, family, addr)
